@@ -59,6 +59,25 @@ func main() {
 	}
 	seed, _ := strconv.ParseInt(os.Getenv("VERIF_SEED"), 10, 64)
 	switch args[0] {
+	case "rules":
+		var ns []string
+		for n := range allRules {
+			ns = append(ns, n)
+		}
+		sort.Strings(ns)
+		for _, n := range ns {
+			var ps []string
+			for p, rs := range propRules {
+				for _, r := range rs {
+					if r == n {
+						ps = append(ps, p)
+					}
+				}
+			}
+			sort.Strings(ps)
+			fmt.Printf("%s\t%s\t%s\n", n, strings.Join(ps, " "), allRules[n].doc)
+		}
+		return
 	case "list":
 		var ps []string
 		for p := range propRules {
@@ -208,7 +227,7 @@ func init() {
 }
 
 func init() {
-	claim("C01", "V1", "V2", "V3", "V4", "V5")
+	claim("C01", "V1", "V2", "V3", "V4", "V5", "V6", "P2")
 }
 
 func init() {
@@ -229,11 +248,11 @@ func init() {
 }
 
 func init() {
-	claim("C12", "H1", "H2", "H3", "H4", "D2")
+	claim("C12", "H1", "H2", "H3", "H4", "H5", "D2")
 }
 
 func init() {
-	claim("C03", "D1", "D2", "D3", "D4", "W3")
+	claim("C03", "D1", "D2", "D3", "D4", "D5", "H5", "W3")
 }
 
 func init() {
